@@ -274,7 +274,7 @@ def plan(tier, seed):
     if tier == "quick":
         layout = [("numpy", "64b", 22)] * 8 + [("jax", "64b", 8)] * 2 + [("pytorch", "64b", 12)] * 2 + [("tensorflow", "64b", 10)] * 2 + [("numpy", "32b", 10), ("pytorch", "32b", 8)]
     else:
-        layout = [("numpy", "64b", 500)] * 6 + [("jax", "64b", 120)] * 3 + [("pytorch", "64b", 300)] * 2 + [("tensorflow", "64b", 200)] * 2 + [("numpy", "32b", 300), ("pytorch", "32b", 200), ("jax", "32b", 80)]
+        layout = [("numpy", "64b", 1000)] * 6 + [("jax", "64b", 240)] * 3 + [("pytorch", "64b", 600)] * 2 + [("tensorflow", "64b", 400)] * 2 + [("numpy", "32b", 600), ("pytorch", "32b", 400), ("jax", "32b", 160)]
     return [{"backend": b, "precision": p, "n": n, "seed": seed * 104729 + i} for i, (b, p, n) in enumerate(layout)]
 
 
